@@ -136,6 +136,8 @@ PROFILES = {'two': prof_two, 'three': prof_three, 'delay': prof_delay, 'adv': pr
 
 def _grid_run(profile, v, props):
     sc = PROFILES[profile](v)
+    if not simh.feasible(sc):
+        return None, False                      # outside every property's pre-condition: skipped
     res = simh.run(sc)
     return simh.first_tag(res, props), res.outcome == 'finished'
 
@@ -163,6 +165,48 @@ def grid(x0: int, x1: int, x2: int, x3: int, x4: int, x5: int, x6: int, x7: int)
     """
     t = grid_tag(x0, x1, x2, x3, x4, x5, x6, x7)
     wit.note(t, x0=x0, x1=x1, x2=x2, x3=x3, x4=x4, x5=x5, x6=x6, x7=x7)
+    return wit.verdict(t)
+
+
+# ---- size-like inputs symbolic and unbounded (traced end to end): C05, C07, C08 ------------------------------------
+def sizes_scenario(r1, r2, hot, cold, rh, rc):
+    s2, d1, d2, da, db = PIN.get('timing', [1, 2, 2, 1, 1])
+    sc = prof_two((s2, d1, d2, da, db, PIN.get('g2', 1), PIN.get('max_ingest', 2), 5))
+    sc['obs'][0]['rate'], sc['obs'][1]['rate'] = r1, r2
+    sc.update(hot=hot, cold=cold, hot_rate=rh, cold_rate=rc)
+    # <= 3 transfer steps per tier move (pre-condition), so the serial bound is a concrete number of steps
+    cap = 0
+    for o in sc['obs']:
+        cap = max(cap, o['start'])
+    cap += sum(o['dur'] + 3 for o in sc['obs']) + len(sc['obs']) * (2 * 3 + 2 * 3) + sum(max(1, d) + 3 for d in (da, db)) * 2 + 2 * (1 + 3)
+    sc['cap'] = cap
+    return sc
+
+
+def feasible_sizes(r1, r2, hot, cold, rh, rc):
+    s2, d1, d2, da, db = PIN.get('timing', [1, 2, 2, 1, 1])
+    for r, d in ((r1, d1), (r2, d2)):
+        size = r * d
+        if not (1 <= r <= rh and size < hot and size <= cold and size <= 3 * rh and size <= 3 * rc):
+            return False
+    return rc >= 1
+
+
+def sizes_tag(r1, r2, hot, cold, rh, rc):
+    wit.begin()
+    res = simh.run(sizes_scenario(r1, r2, hot, cold, rh, rc))
+    if res.outcome == 'finished':
+        wit.reach('simulation-completed')
+    return my_tag(res)
+
+
+def sizes(r1: int, r2: int, hot: int, cold: int, rh: int, rc: int) -> bool:
+    """
+    pre: feasible_sizes(r1, r2, hot, cold, rh, rc)
+    post: _
+    """
+    t = sizes_tag(r1, r2, hot, cold, rh, rc)
+    wit.note(t, r1=r1, r2=r2, hot=hot, cold=cold, rh=rh, rc=rc)
     return wit.verdict(t)
 
 
